@@ -15,6 +15,10 @@ def jobs(tier):
                               "h_lu_pivot_rule": "all 256 2x2 matrices with entries from {1,2,3,100} (exhaustive; a symbolic version does not finish)",
                               "h_lu_zero_pivot": "all finite 2x2 matrices with a zero first column or a zero first row"}[e],
                        timeout=200, cbmc_flags=["--no-leak"]))
+    J.append(V.Job("qrsolve_rank", H, "h_qrsolve_rank", ["vnacommon_qrsolve.c"], stubs=["verif_libc.c"], defines=["-DH_QRSOLVE"],
+                   unwind=6, kind="bounded", canary=True, functions=["_vnacommon_qrsolve (rank decision)"],
+                   bound="3x2 system, one right-hand side; the diagonal of R left by the factorisation (assumed contract), A and b: all doubles",
+                   timeout=300, cbmc_flags=["--no-leak", "--slice-formula"]))
     import C20
     for t in (("VNACAL_T8", "VNACAL_U8") if tier == "quick" else ("VNACAL_T8", "VNACAL_U8", "VNACAL_TE10", "VNACAL_UE10", "VNACAL_T16", "VNACAL_U16")):
         J.append(V.Job("ab_reduction.%s" % t[7:], "vnacal/c19_ab.c", "h_ab_reduction", C20.BASE, defines=C20.CUT + ["-DCAL_TYPE=%s" % t],
